@@ -668,6 +668,9 @@ static json exercise_obj(econf_file *kf) {
     size_t n = 0; char **keys = nullptr;
     lib_enter(); econf_err rc = econf_getKeys(kf, grp, &n, &keys); lib_leave(); note(rc);
     if (rc != ECONF_SUCCESS) continue;
+    { // the size out-parameter is optional (the array is NULL terminated): the same listing without it
+      char **k2 = nullptr; lib_enter(); econf_err rc2 = econf_getKeys(kf, grp, nullptr, &k2); lib_leave(); note(rc2);
+      if (rc2 == ECONF_SUCCESS && k2) { size_t m = 0; while (k2[m]) m++; if (m != n) r["listing_without_size_differs"] = true; lib_enter(); econf_freeArray(k2); lib_leave(); } }
     std::string bracketed = grp ? "[" + std::string(grp) + "]" : "";
     for (size_t i = 0; i < n; i++) {
       nkeys++;
